@@ -62,6 +62,10 @@ var BoundaryMetaShapes = []map[string]string{
 	{"v": strings.Repeat("v", 65535)},
 	{"v": strings.Repeat("v", 65536)},
 	{strings.Repeat("K", 300): strings.Repeat("V", 70000), "a": "1"},
+	// fewer characters than bytes: the format's limits are byte lengths
+	{strings.Repeat("\u00e9", 128): "256-byte key of 128 characters"},
+	{"v": strings.Repeat("\u00e9", 32768)},
+	{strings.Repeat("\u00e9", 127) + "k": strings.Repeat("\u00e9", 32767) + "v"},
 }
 
 // Meta returns a fresh copy of shape i (the code under test mutates maps it is given).
